@@ -278,6 +278,34 @@ def check_arith(ctx):
                               "expiry = timestamp.saturating_add(ttl * 1e9)", b.where(y.id), {"base": base.show()})
             ctx.check(ok, inst, "SIBLING", b.path, "the nanosecond TTL is added with saturating_add", b.where(x.id))
     ctx.check(n >= 3, inst, "anchor", "-", "TTL arithmetic sites (>= 3, found %d)" % n, None)
+    # (added when the full self-test showed C11-d missed once the count floor had been lowered for helper extractions) a count of
+    # saturating sites cannot tell "two sites moved into a saturating helper" from "two sites moved into a truncating helper".
+    # Decided instead on the values: wherever the store layer hands a value named `ttl_seconds` to a callee, the callee is the
+    # saturating multiplication by 1e9 or another function of the crate (which is examined in turn); a conversion through
+    # Duration / u128 / checked or wrapping arithmetic / a cast is reported.
+    n_uses = 0
+    for b in ctx.prog.product_bodies():
+        if not (b.file.startswith("src/core/store/") or b.file == "src/core/ttl_sweep.rs"):
+            continue
+        def is_ttl(e):
+            return (e.k == "arg" and (e.extra[1] or "") == "ttl_seconds") or (e.k == "local" and (b.local_name(e.extra) or "") == "ttl_seconds")
+        for x in b.calls():
+            for i_ in range(len(x.ev["args"])):
+                e = R.arg_expr(b, x, i_, transparent=False)
+                if not is_ttl(e):
+                    continue
+                n_uses += 1
+                local_fn = any(t and t in ctx.prog.bodies for t in ctx.prog.targets(x.ev))
+                sat = R.call_matches(x.ev, "u64::saturating_mul")
+                ctx.check(local_fn or sat, inst, "SIBLING", b.path, "a TTL in seconds is converted only by saturating_mul(1_000_000_000) (or handed on to a function of the crate)",
+                          b.where(x.id), {"callee": R.callee_name(x.ev)})
+        for x in b.nodes:
+            if x.kind == "assign" and x.ev.get("rv") == "cast":
+                v = A.tracer(b, False).operand(x.ev["a"])
+                if is_ttl(v):
+                    n_uses += 1
+                    ctx.fail(inst, "SIBLING", b.path, "a TTL in seconds is converted only by saturating_mul(1_000_000_000): cast of ttl_seconds", b.where(x.id))
+    ctx.check(n_uses >= 8, inst, "anchor", "-", "uses of a `ttl_seconds` value as a call argument in the store layer (>= 8, found %d)" % n_uses, None)
     # migration source is opened with TTL filtering off
     b = ctx.fn("migration::migration_config", inst) if ctx.prog.find("migration::migration_config") else None
     if b is None:
